@@ -91,9 +91,29 @@ fn read_to_end(o: &ReqOut, r: &Resp, complete: bool, p: usize) -> bool {
 pub fn check(sc: &Scen, obs: &Obs) -> Vec<Violation> {
     let mut out = Vec::new();
     let resps: Vec<Resp> = sc.reqs.iter().enumerate().map(|(j, s)| build(s.framing, j, s.leftover)).collect();
+    // A leftover that reached the client only after the next request had been written on the
+    // connection is taken for that request's response by any client; from there on every exchange
+    // on that connection is shifted by one through the server's doing: (connection, first position
+    // from which nothing is judged any more)
+    let mut desynced: std::collections::HashMap<usize, usize> = std::collections::HashMap::new();
+    for (j, _) in sc.reqs.iter().enumerate() {
+        let sv = &obs.served[j];
+        if let (ReqOut::Head { tag, .. }, Some(ci)) = (&obs.outs[j], sv.conn) {
+            let stale = tag.as_deref().and_then(|t| t.parse::<usize>().ok()).map_or(false, |t| t >= STALE_TAG_BASE);
+            let late = obs.conn_starts[ci].iter().find(|s| s.ordinal == sv.ordinal).map_or(false, |s| s.unread == 0 && !s.fin_seen);
+            if stale && late {
+                let e = desynced.entry(ci).or_insert(sv.ordinal);
+                *e = (*e).min(sv.ordinal);
+            }
+        }
+    }
+    let is_desynced = |ci: Option<usize>, ordinal: usize| ci.and_then(|c| desynced.get(&c)).map_or(false, |&from| ordinal > from);
     for (j, spec) in sc.reqs.iter().enumerate() {
         let r = &resps[j];
         let sv = &obs.served[j];
+        if is_desynced(sv.conn, sv.ordinal) {
+            continue;
+        }
         let complete = sv.conn.is_some() && sv.delivered >= r.framed_len;
         let kind = r.kind;
         let describe = || {
@@ -229,6 +249,9 @@ pub fn check(sc: &Scen, obs: &Obs) -> Vec<Violation> {
         for m in 1..reqs.len() {
             let (p, j) = (reqs[m - 1], reqs[m]);
             if p >= sc.reqs.len() || j >= sc.reqs.len() {
+                continue;
+            }
+            if desynced.get(&ci).map_or(false, |&from| m - 1 >= from) {
                 continue;
             }
             let rp = &resps[p];
